@@ -15,7 +15,7 @@ Section facts.
   Lemma eval_v_S f cx p src st :
     eval_v (S f) cx p src st =
     match p with
-    | PId => Done (src, st)
+    | PId => if plain src then Done (src, st) else Stuck
     | PShare => Done (src, st)
     | PRef alias v => let* (r, st1) := eval_v f cx v src st in
                       if alias then Done (VPtr ALIAS r, st1) else Done (VPtr st1 r, st1 + 1)
@@ -242,7 +242,9 @@ Section facts.
   Qed.
 
   (* basic values are unchanged; sharing plans return the source itself *)
-  Lemma eval_id f cx src st : eval_v (S f) cx PId src st = Done (src, st).
+  Lemma eval_id f cx src st : plain src = true -> eval_v (S f) cx PId src st = Done (src, st).
+  Proof. intros H. cbn [eval_v]. rewrite H. reflexivity. Qed.
+  Lemma eval_id_basic f cx z st : eval_v (S f) cx PId (VBasic z) st = Done (VBasic z, st).
   Proof. reflexivity. Qed.
   Lemma eval_share f cx src st : eval_v (S f) cx PShare src st = Done (src, st).
   Proof. reflexivity. Qed.
